@@ -55,6 +55,7 @@ type Harness struct {
 	Tier     int
 	Expect   []string // labels of reach witnesses that must be hit
 	Doc      string
+	Solver   string
 }
 
 type WorkItem struct {
@@ -282,6 +283,10 @@ func findHarnesses(prog *ssa.Program, pkgs []*packages.Package, prop string, tie
 						h.Preempt = atoi(1)
 					case "timers":
 						h.Timers = atoi(1)
+					case "solver":
+						if len(f) > 1 {
+							h.Solver = f[1]
+						}
 					case "tier":
 						if len(f) > 1 && f[1] == "thorough" {
 							h.Tier = 1
@@ -596,6 +601,13 @@ func (ex *Exec) renderObserved(v Value) string {
 	return fmt.Sprintf("<%T>", v)
 }
 
+func backendFor(h *Harness, opts *Options) string {
+	if h.Solver != "" {
+		return h.Solver
+	}
+	return opts.backend
+}
+
 func explore(prog *ssa.Program, h *Harness, opts *Options) *HarnessResult {
 	res := &HarnessResult{Name: h.Name, Pkg: h.Pkg, Reached: map[string]int{}, Asserts: map[string]int{}, Doc: h.Doc,
 		Bounds: map[string]int{"unwind": h.Unwind, "max_steps_per_path": h.MaxSteps, "max_paths": h.MaxPaths, "preemptions": h.Preempt, "timer_firings": h.Timers}}
@@ -628,7 +640,7 @@ func explore(prog *ssa.Program, h *Harness, opts *Options) *HarnessResult {
 				}
 				if w == nil {
 					ctx = NewCtx()
-					w = &Worker{id: id, opts: opts, prog: prog, ctx: ctx, solver: NewSolver(ctx, opts.backend, opts.timeoutMs), fnInfos: map[*ssa.Function]*fnInfo{}}
+					w = &Worker{id: id, opts: opts, prog: prog, ctx: ctx, solver: NewSolver(ctx, backendFor(h, opts), opts.timeoutMs), fnInfos: map[*ssa.Function]*fnInfo{}}
 				}
 				pathSem <- struct{}{}
 				pr, forks, sample, approx, leaked := w.runPath(h, it)
@@ -643,7 +655,7 @@ func explore(prog *ssa.Program, h *Harness, opts *Options) *HarnessResult {
 					w.solver.Close()
 					ctx = NewCtx()
 					w.ctx = ctx
-					w.solver = NewSolver(ctx, opts.backend, opts.timeoutMs)
+					w.solver = NewSolver(ctx, backendFor(h, opts), opts.timeoutMs)
 				}
 			}
 		}(i)
